@@ -8,6 +8,7 @@ import z3
 from pyvc import sym
 from pyvc.arr import check_same
 from pyvc.harness import Unit
+from pyvc import harness as _h
 from pyvc.meshmodel import compare_blocks
 from pyvc.sym import SB, SC, SI, SR, check, explore, assume
 from checks import ops_common as oc
@@ -183,6 +184,12 @@ def oc_eval(block, k):
     return (n, (g(k) if g else z3.BoolVal(True)), r(k), c(k), v(k))
 
 
+
+def _bounded_quick():
+    from checks import ops_native
+    return ops_native.search(0, 4)
+
+
 def units():
     return [
         Unit("build_divergence", F + "build_divergence", run_divergence, props=["C03"], timeout=300),
@@ -191,7 +198,7 @@ def units():
         Unit("build_neumann_boundary_laplacian", F + "build_neumann_boundary_laplacian", run_neumann, props=["C03"], timeout=300),
         Unit("identities", "lemmas over the stencil contracts (generic edge)", run_identities, props=["C03"], timeout=300),
         Unit("MeshOperators.build_operators", F + "MeshOperators.build_operators", run_build_operators, props=["C03"], timeout=600),
-    ]
+            _h.bounded_unit("operator identities on generated meshes [bounded]", "tdgl.finite_volume.operators (real builders, real meshes)", "C03", _bounded_quick, "real_operators_match_the_dense_reference_and_smoothing_leaves_meshes_intact[4 meshes]", timeout=900)]
 
 
 M_ = "tdgl.finite_volume.operators"
